@@ -491,13 +491,15 @@ def update_alert_source(sources):
 
 def inplace_lists(handle, tag):
     """A metric transaction that edits list-valued members of the state in place (extension element appended, body site
-    appended) instead of assigning new lists - copies retained elsewhere must not follow."""
+    appended, first body site edited) instead of assigning new lists - copies retained elsewhere must not follow."""
     def ev(p):
         from lxml import etree
         _need(p, handle)
         with p.mdib.metric_state_transaction() as tr:
             st = tr.get_state(handle)
             st.Extension.append(etree.Element(etree.QName('urn:verif:ext', 'Mark'), attrib={'v': tag}))
+            if st.BodySite:
+                st.BodySite[0].CodingSystemVersion = f'v-{tag}'     # an element of the list edited in place
             st.BodySite.append(_pm().CodedValue(f'site-{tag}'))
     return ev
 
